@@ -41,6 +41,9 @@ CLAIMS = {
                      "loop. Also proved (TokIR/QueueSim.v, generic): with exact_errors = true the interpreter over the chunked "
                      "queue - the one run against the Rust code - equals the reference interpreter token for token (errors, "
                      "lines, configuration, unread input, results) for the whole driver (feed, BOM, script injection, end). "
+                     "And at the level of the executable driver (TokIR/ChunkExec.v): two chunkings through drive_flat - feed loops with "
+                     "script injection, then end() - reach the same final machine and end() result whenever every feed call ended "
+                     "regularly (BOM flag clear). "
                      "Not proved, tied by differential runs in the check: for exact_errors = false the chunked-queue "
                      "interpreter with bulk reads agrees with the reference semantics up to merging of adjacent character "
                      "tokens and the fast path's missing per-character errors; the Rust "
@@ -73,7 +76,8 @@ CLAIMS = {
                      "clear when a state starting with eat() is entered) is proved to be an invariant of the interpreter on the "
                      "regenerated table (TokIR/ChunkInv.v: kept by every step, by appended input and injected script text, true of "
                      "every initial machine), so the relation is the fuelled executable loop on every reachable machine. In exact mode the chunked-queue "
-                     "interpreter equals the reference one token for token (TokIR/QueueSim.v). Still "
+                     "interpreter equals the reference one token for token (TokIR/QueueSim.v), and the executable driver "
+                     "(feed loops, script injection, end()) is chunk-independent (TokIR/ChunkExec.v). Still "
                      "_partial: the bulk-read / non-exact interpreter vs the reference semantics, and the Rust code "
                      "vs the interpreter, are tied differentially. Chunking / exact_errors / discard_bom independence of the real "
                      "parser and the normalisation law tree(x) = tree(normalise(x)) are checked metamorphically on the "
